@@ -335,8 +335,52 @@ def _strip_parens(t):
     return t
 
 
+def _drop_redundant_parens(t):
+    """remove parenthesis pairs that enclose a whole call argument, a whole operand of unary `*`, or another parenthesis pair"""
+    changed = True
+    while changed:
+        changed = False
+        stack = []
+        pairs = {}
+        for i, ch in enumerate(t):
+            if ch == "(":
+                stack.append(i)
+            elif ch == ")" and stack:
+                pairs[stack.pop()] = i
+        for a, b in sorted(pairs.items()):
+            before = t[a - 1] if a > 0 else ""
+            after = t[b + 1] if b + 1 < len(t) else ""
+            if before and (before.isalnum() or before in "_]"):
+                continue                      # call or index parentheses
+            inner = t[a + 1:b]
+            whole_arg = (before in "(," or a == 0) and (after in ",)" or b == len(t) - 1)
+            simple = re.fullmatch(r"\*?[A-Za-z_][A-Za-z_0-9]*(\([^()]*\))?(\[[^\[\]]*\])?", inner) is not None or re.fullmatch(r"[A-Za-z_0-9]+", inner) is not None
+            nested_call = re.fullmatch(r"\*?[A-Za-z_][A-Za-z_0-9]*\(.*\)(\[[^\[\]]*\])?", inner) is not None and _balanced_call(inner)
+            if whole_arg or simple or (before == "*" and nested_call) or (nested_call and (after in ",)-+" or after == "")):
+                t = t[:a] + inner + t[b + 1:]
+                changed = True
+                break
+    return t
+
+
+def _balanced_call(inner):
+    """inner is `name( ... )[idx]?` with the first parenthesis closing at the end (one call, not `f(a)+g(b)`)"""
+    i = inner.find("(")
+    depth = 0
+    for j in range(i, len(inner)):
+        if inner[j] == "(":
+            depth += 1
+        elif inner[j] == ")":
+            depth -= 1
+            if depth == 0:
+                rest = inner[j + 1:]
+                return rest == "" or re.fullmatch(r"\[[^\[\]]*\]", rest) is not None
+    return False
+
+
 def _canon(t):
     t = re.sub(r"\(uint64_t\*?\)|\(void\*\)|\(char\*\)", "", t)
+    t = _drop_redundant_parens(t)
     prev = None
     while prev != t:
         prev = t
@@ -365,7 +409,7 @@ def r4_extension_passthrough(repo=None):
     DATA = r"^\*?PyArray_DATA\((?P<arr>\w+)\)$"
     DIM0 = r"^PyArray_DIMS\((?P<arr>\w+)\)\[0\]$"
     # ---- contiguous write
-    fn = tu.fn("_py_rf_write_hdf5_rf_write")
+    fn = tu.fn(cfront.ext_fn(tu, "rf_write"))
     g = _cfg.build_c(fn)
     T = _parse_targets(fn)
     if len(T) != 3:
@@ -388,7 +432,7 @@ def r4_extension_passthrough(repo=None):
     if (v_data, v_len, v_idx) == ("ok", "ok", "ok"):
         r.ok(site, "data = PyArray_DATA(%s), length = PyArray_DIMS(%s)[0], index = the parsed `%s`" % (T[1], T[1], T[2]))
     # ---- block write
-    fn = tu.fn("_py_rf_write_hdf5_rf_block_write")
+    fn = tu.fn(cfront.ext_fn(tu, "rf_block_write"))
     g = _cfg.build_c(fn)
     T = _parse_targets(fn)
     if len(T) != 4:
@@ -636,10 +680,10 @@ def r5_interface_agreement(repo=None):
     if mcalls < 8:
         raise AnalysisError("expected >= 8 extension call sites in digital_rf_hdf5.py, found %d" % mcalls)
     # wrapper -> library argument order by parameter name
-    for cname, libname in (("_py_rf_write_hdf5_init", "digital_rf_create_write_hdf5"),
-                           ("_py_rf_write_hdf5_get_unix_time", "digital_rf_get_unix_time_rational"),
-                           ("_py_rf_write_hdf5_rf_write", "digital_rf_write_hdf5"),
-                           ("_py_rf_write_hdf5_rf_block_write", "digital_rf_write_blocks_hdf5")):
+    for cname, libname in ((cfront.ext_fn(tu, "init"), "digital_rf_create_write_hdf5"),
+                           (cfront.ext_fn(tu, "get_unix_time"), "digital_rf_get_unix_time_rational"),
+                           (cfront.ext_fn(tu, "rf_write"), "digital_rf_write_hdf5"),
+                           (cfront.ext_fn(tu, "rf_block_write"), "digital_rf_write_blocks_hdf5")):
         fn = tu.fn(cname)
         params = [p.name for p in lib.params(libname)]
         for c in fn.calls((libname,)):
@@ -670,7 +714,7 @@ def r5_interface_agreement(repo=None):
                 r.ok(site, "no argument is named like a parameter at another position%s" % (
                     (" (names not comparable: %s)" % ", ".join(unk)) if unk else ""))
     # Py_BuildValue of get_unix_time vs the Python unpacking
-    fn = tu.fn("_py_rf_write_hdf5_get_unix_time")
+    fn = tu.fn(cfront.ext_fn(tu, "get_unix_time"))
     bv = fn.calls(("Py_BuildValue",))
     gu = m.fn("get_unix_time")
     tgt = None
